@@ -56,6 +56,20 @@ def _unpack(items, limit=None):
     return u.unpack(R(items, limit))
 
 
+class _Rejected(object):
+    """what _unpack_valid returns when the decoder raises on an encoding the specification allows"""
+
+
+REJECTED = _Rejected()
+
+
+def _unpack_valid(items):
+    try:
+        return u.unpack(R(items))
+    except Exception:
+        return REJECTED
+
+
 def items_eq(a, b):
     if len(a) != len(b):
         return False
@@ -122,12 +136,18 @@ def to_spec(v):
 def roundtrip_ok(v):
     """pack with the real encoder; bytes == minimal spec encoding; real decoder and spec decoder both
     return the value and consume the whole stream."""
-    items = _pack(v)
+    try:
+        items = _pack(v)
+    except Exception:
+        return False        # a value of the model was refused by the encoder
     sv = to_spec(v)
     if not items_eq(items, S.enc(sv)):
         return False
     r = R(items)
-    got = u.unpack(r)
+    try:
+        got = u.unpack(r)
+    except Exception:
+        return False        # the encoder's own output was rejected by the decoder
     if not val_eq(v, got) or not r.at_end():
         return False
     cur = S.Cur(items)
@@ -212,7 +232,7 @@ def int_nonminimal(x: int, f: int) -> bool:
     fmt = _fmt(f)
     if not S.int_legal(x, fmt):
         return True
-    got = _unpack(S.enc_int_fmt(x, fmt))
+    got = _unpack_valid(S.enc_int_fmt(x, fmt))
     return isinstance(got, int) and got == x and not TWIN[0]
 
 
@@ -267,7 +287,7 @@ def _counted(v, kind, n):
     FakeRange.LOG = []
     u.range = FakeRange
     try:
-        got = _unpack(items)
+        got = _unpack_valid(items)
     finally:
         if saved is None:
             del u.range
@@ -378,20 +398,20 @@ def len_nonminimal(kind: int, n: int, w: int) -> bool:
         return True
     if kind == 0:
         b = Blob(n)
-        return _unpack(S.hdr_bin(n, width) + [b]) is b and not TWIN[0]
+        return _unpack_valid(S.hdr_bin(n, width) + [b]) is b and not TWIN[0]
     if kind == 1:
         s = SStr(n)
-        return _unpack(S.hdr_str(n, width) + [s.blob]) is s and not TWIN[0]
+        return _unpack_valid(S.hdr_str(n, width) + [s.blob]) is s and not TWIN[0]
     if kind == 2:
         b = Blob(n)
-        got = _unpack(S.hdr_ext(n, 7, width) + [b])
+        got = _unpack_valid(S.hdr_ext(n, 7, width) + [b])
         return isinstance(got, u.Ext) and got.type == 7 and got.data is b and not TWIN[0]
     hdr = S.hdr_array(n, width) if kind == 3 else S.hdr_map(n, width)
     saved = u.__dict__.get('range')
     FakeRange.LOG = []
     u.range = FakeRange
     try:
-        got = _unpack(hdr)
+        got = _unpack_valid(hdr)
     finally:
         if saved is None:
             del u.range
@@ -654,7 +674,7 @@ def compat_mode(kind: int, n: int) -> bool:
         hdr = S.hdr_str(n, 0 if n <= 31 else 2 if n < 2 ** 16 else 4)
         if not items_eq(items, hdr + [payload]):
             return False
-        got = _unpack(items)
+        got = _unpack_valid(items)
     finally:
         u.compatibility = False
     return got is payload and not TWIN[0]
